@@ -22,7 +22,11 @@ META = {
             "hooks/C17-yield-points.patch; the sequence of control points reached, the events received, cont()/run() results and termination "
             "(watchdog) must equal the extracted model's; a specification oracle independent of the model checks the received events against the "
             "breakpoint-filtered list of rule visits (built-in rules included) that a listener-free walk of the optimized grammar produces, and that "
-            "breakpoint edits issued while the parse is stopped return (C17_breakpoint_edits_never_block: the Mutex is modelled with explicit acquire/release steps).",
+            "breakpoint edits issued while the parse is stopped return (C17_breakpoint_edits_never_block: the Mutex is modelled with explicit acquire/release steps). "
+            "add_all_rules_breakpoints is a command of the model (CAdd over the grammar's rules under one guard) and of the histories. "
+            "Front end (debugger/src/main.rs): whole sessions (options -b/-r, lines b d ba da r c l) are run through the real pest_debugger binary "
+            "and its printed stops compared with the model driven as main.rs drives the API (parsing thread first, since the front end waits for "
+            "each answer) and with a direct specification oracle (each run/continue prints the next visit whose rule is in the current set, then the outcome).",
     "note": "Trusted: Coq kernel; extraction (ExtrOcamlBasic only); harness/runner/driver; std::thread::park/unpark, sync_channel, Mutex, "
             "AtomicBool, JoinHandle by documented meaning (no spurious wake-ups, SeqCst everywhere); the parse abstracted to its listener-call "
             "list (entries from a listener-free walk of the optimized grammar, cross-checked with a plain pest_vm listener run; abort-panics flags from pest_vm); the controller modelled as debugger/src/main.rs uses the API "
@@ -42,6 +46,64 @@ def hook_present():
         return "verif_hooks" in open(os.path.join(REPO, "debugger", "src", "lib.rs")).read()
     except OSError:
         return False
+
+
+def cli_build(timeout=2400):
+    """the real command-line front end (debugger/src/main.rs), built without the hook cfg from the tree under check"""
+    hdir, target = harness_dir("harness")
+    tdir = target + "-cli"
+    rc, out = sh("cargo build --release --offline --bin pest_debugger 2>&1", cwd=os.path.join(REPO, "debugger"), timeout=timeout,
+                 env={"CARGO_TARGET_DIR": tdir, "RUSTFLAGS": "-Awarnings"})
+    return rc, out, os.path.join(tdir, "release", "pest_debugger")
+
+
+def setup():
+    rc, out, _ = cli_build()
+    print(out[-1500:])
+    return rc
+
+
+def run_cli(hbin, runner, cli, header, nsessions, seed, res, mode):
+    """whole sessions through the real pest_debugger binary (options -b/-r and command lines) against the model and the specification"""
+    rc, gen = sh("%s gencli %d %d" % (runner, nsessions, seed), stdin=("\n".join(header) + "\n").encode(), timeout=300)
+    cases = [l for l in gen.split("\n") if l and not (l.startswith("MODE\t") or l.startswith("CFG\t"))]
+    d = os.path.join(BUILD, "c17.d")
+    os.makedirs(d, exist_ok=True)
+
+    def go(cases, delay, tag):
+        n = max(1, min(SHARDS * 2, len(cases)))
+        cmds = []
+        for i in range(n):
+            path = os.path.join(d, "cli-%s-%d.txt" % (tag, i))
+            with open(path, "w") as f:
+                f.write("\n".join(header + cases[i::n]) + "\n")
+            cmds.append("%s cli %s %d < %s | %s cli" % (hbin, cli, delay, path, runner))
+        mm, total = [], 0
+        for rc, out in run_pipeline(cmds, timeout=1800):
+            m, s, _ = parse_runner_output(out)
+            total += s.get("cases", 0)
+            if rc != 0 or "mismatches" not in s:
+                mm.append({"kind": "harness", "case": "", "impl": "cli pipeline failed rc=%s" % rc, "expected": out[-800:]})
+            for line in out.split("\n"):
+                if line.startswith("MISMATCH\t"):
+                    p = line.split("\t")
+                    mm.append({"kind": p[1], "case": "\t".join(p[2:6]), "impl": p[6] if len(p) > 6 else "", "expected": p[7] if len(p) > 7 else ""})
+        return mm, total
+    mm, total = go(cases, 40, "a")
+    if mm:
+        # the front end is driven with natural timing: repeat what differed with ten times the pause between lines,
+        # only what differs again is reported
+        again = sorted(set(m["case"] for m in mm if m["case"]))
+        mm2, _ = go(again, 400, "b") if again else ([], 0)
+        mm = [m for m in mm if not m["case"]] + mm2
+    return mm, total, cases[:3]
+
+
+def cli_describe(case):
+    f = case.split("\t")
+    if len(f) < 4:
+        return case
+    return "grammar=%s options=[-b {%s}%s] lines=[%s]" % (f[0], f[1], " -r" if f[2] == "1" else "", f[3])
 
 
 def run_shards(hbin, runner, header, cases, timeout):
@@ -129,6 +191,12 @@ def run(tier, seed, replay=None):
         res.violation("OCaml runner does not build", {"theorem_or_correspondence": "C17 extraction", "log": oout[-3000:]}, no_failing_input=True)
         return res.finish()
     hbin = os.path.join(bdir, "c17")
+    crc, cout, clibin = cli_build()
+    if crc != 0:
+        res.violation("the pest_debugger binary does not build from %s (front-end correspondence cannot run)" % REPO,
+                      {"theorem_or_correspondence": "C17 front-end correspondence (build)", "log": cout[-3000:]}, no_failing_input=True)
+        proof_violation()
+        return res.finish()
 
     rc, ent = sh("%s entries" % hbin, timeout=120)
     header = [l for l in ent.split("\n") if l.startswith("MODE\t") or l.startswith("CFG\t")]
@@ -140,6 +208,18 @@ def run(tier, seed, replay=None):
         return res.finish()
     log("C17: repository is in mode `%s` (%s)" % (mode, "fixes/C17-1-final-send.patch applied" if mode == "fixed" else "final send unguarded"))
 
+    if replay and json.load(open(replay)).get("front_end"):
+        case = json.load(open(replay)).get("case", "")
+        rc, out = sh("%s cli %s 300 | %s cli" % (hbin, clibin, runner), stdin=("\n".join(header + [case]) + "\n").encode(), timeout=120)
+        log("replay %s" % cli_describe(case))
+        bad = [l for l in out.split("\n") if l.startswith("MISMATCH")]
+        for l in bad:
+            log("  " + l[:900])
+        if bad:
+            p = bad[0].split("\t")
+            res.violation("replayed session still differs (%s): %s" % (p[1], p[-1][:300]), {"case": case, "front_end": True, "impl": p[6] if len(p) > 6 else ""},
+                          no_failing_input=(p[1] != "spec"))
+        return res.finish()
     if replay:
         case = json.load(open(replay)).get("case", "")
         rc, out = sh("%s force | %s check" % (hbin, runner), stdin=("\n".join(header + [case]) + "\n").encode(), timeout=120)
@@ -166,6 +246,21 @@ def run(tier, seed, replay=None):
               # coq/Debugger/Witness.v w2: cont twice, stale park token, re-run hangs with or without the repair
               "ident\t1\t0,1,2,3\tR,V,K,K,R\tCCCPPPPCCCCPCCCCPPPPPPCCC"]
     mism, stats, known = run_shards(hbin, runner, header, corpus + cases, timeout=900 if tier == "quick" else 7200)
+
+    cli_m, cli_total, cli_samples = run_cli(hbin, runner, clibin, header, 60 if tier == "quick" else 1500, seed, res, mode)
+    cli_spec = [m for m in cli_m if m["kind"] == "spec"]
+    if cli_spec:
+        w = min(cli_spec, key=lambda m: len(m["case"]))
+        res.violation("property violated through the command-line front end: %s: %s" % (w["expected"], cli_describe(w["case"])),
+                      {"theorem_or_correspondence": "C17 oracle: pest_debugger binary vs specification (events = breakpoint hits of the parse, one per run/continue)",
+                       "case": w["case"], "front_end": True, "impl": w["impl"], "spec": w["expected"], "mode": mode, "others": len(cli_spec) - 1,
+                       "legend": "options -b <rule index in the CFG line>, -r; lines b<k> d<k> ba da r c l; observation: B<rule>@<byte position>, EOF, ERR, cont=eof, cont=norun, L<set>"})
+    elif cli_m:
+        w = min(cli_m, key=lambda m: len(m["case"]))
+        res.violation("front-end correspondence broken: the pest_debugger binary does not print what the model of main.rs + lib.rs gives on %s, "
+                      "but the output is allowed by the specification" % cli_describe(w["case"]),
+                      {"theorem_or_correspondence": "C17 front-end correspondence: binary vs extracted model (parsing thread first)",
+                       "case": w["case"], "front_end": True, "impl": w["impl"], "model": w["expected"]}, no_failing_input=True)
 
     spec_m = [m for m in mism if m["kind"] == "spec"]
     model_m = [m for m in mism if m["kind"] == "model"]
@@ -225,6 +320,8 @@ def run(tier, seed, replay=None):
         "abort_panics_observed": stats.get("abort_panics", 0),
         "samples": corpus + cases[:3],
         "runner_cases": stats.get("cases", 0),
+        "front_end_sessions": cli_total,
+        "front_end_samples": cli_samples,
         "mismatches": len(mism),
     })
     res.assumptions = ["no spurious wake-ups of thread::park; SeqCst for every flag access (run() loads Relaxed)",
